@@ -12,7 +12,13 @@ for sid in ids:
     checks = extra or [meta["property"]]
     assert sh("git -C /repo status --porcelain --untracked-files=no").stdout.strip() == "", "/repo not clean"
     r = sh(f"git -C /repo apply {d}/patch.diff")
-    if r.returncode: print(sid, "patch does not apply:", r.stderr[:200]); continue
+    if r.returncode:
+        # later fix commits moved the context: the same hunks, applied with fuzz
+        r = sh(f"patch -p1 -F3 --no-backup-if-mismatch -d /repo < {d}/patch.diff")
+        if r.returncode:
+            sh("git -C /repo checkout -- ."); sh("git -C /repo clean -fdq apischema")
+            print(sid, "patch does not apply:", (r.stdout + r.stderr)[:200]); continue
+        meta["applied_with_fuzz"] = True
     ran = []
     try:
         for c in checks:
